@@ -207,25 +207,43 @@ def r4(ctx: Ctx) -> None:
              "primitive type", 6)
     f = ctx.fn("data_structures.Schema.__post_init__")
     g = ctx.cfg(f)
-    wanted = {
-        "missing 'id'": lambda t: "'id' not in" in t,
-        "missing 'name'": lambda t: "'name' not in" in t,
-        "missing 'type'": lambda t: "'type' not in" in t,
-        "duplicate id": lambda t: " in seen_ids" in t and "not in" not in t,
-        "duplicate name": lambda t: " in seen_names" in t and "not in" not in t,
-        "unknown primitive type": lambda t: "not in valid_primitive_types" in t,
+    def _src_key(b: Node) -> Optional[str]:
+        """which schema-field key the tested value comes from (field_def["<key>"])"""
+        if not isinstance(b.ast, ast.Compare):
+            return None
+        for nm in names_in(b.ast.left):
+            for d in ctx.rd(f).reaching(b.id, nm):
+                dn = g.nodes[d]
+                if isinstance(dn.ast, ast.Assign):
+                    for x in ast.walk(dn.ast.value):
+                        if isinstance(x, ast.Subscript) and isinstance(x.slice, ast.Constant) and x.slice.value in ("id", "name", "type"):
+                            return str(x.slice.value)
+        return None
+
+    def _raises(b: Node) -> bool:
+        t = edge_target(g, b, "true")
+        if t is None:
+            return False
+        reach = reachable_from(g, t, NORMAL, avoid=[n.id for n in g.nodes if n.kind == "loop"])
+        return any(g.nodes[x].kind == "raise" and g.nodes[x].raised == "ValueError" for x in reach)
+
+    brs_all = [b for b in g.nodes if b.kind == "branch" and isinstance(b.ast, ast.Compare)]
+    roles = {
+        "missing 'id'": lambda b: isinstance(b.ast.ops[0], ast.NotIn) and isinstance(b.ast.left, ast.Constant) and b.ast.left.value == "id",
+        "missing 'name'": lambda b: isinstance(b.ast.ops[0], ast.NotIn) and isinstance(b.ast.left, ast.Constant) and b.ast.left.value == "name",
+        "missing 'type'": lambda b: isinstance(b.ast.ops[0], ast.NotIn) and isinstance(b.ast.left, ast.Constant) and b.ast.left.value == "type",
+        "duplicate id": lambda b: isinstance(b.ast.ops[0], ast.In) and _src_key(b) == "id",
+        "duplicate name": lambda b: isinstance(b.ast.ops[0], ast.In) and _src_key(b) == "name",
+        "unknown primitive type": lambda b: isinstance(b.ast.ops[0], ast.NotIn) and _src_key(b) == "type",
     }
-    for role, pred in wanted.items():
-        brs = [b for b in g.nodes if b.kind == "branch" and pred(b.text)]
-        ok = False
-        for b in brs:
-            t = edge_target(g, b, "true")
-            if t is not None:
-                reach = reachable_from(g, t, NORMAL, avoid=[n.id for n in g.nodes if n.kind == "loop"])
-                if any(g.nodes[x].kind == "raise" and g.nodes[x].raised == "ValueError" for x in reach):
-                    ok = True
+    dup_sets = set()
+    for role, pred in roles.items():
+        brs = [b for b in brs_all if pred(b)]
+        ok = any(_raises(b) for b in brs)
         ctx.ob("C11.R4", f, f"{role} -> ValueError", brs[0] if brs else None, ok, "schema well-formedness is enforced at construction", text=role)
+        if role.startswith("duplicate"):
+            dup_sets |= {norm_text(b.ast.comparators[0]) for b in brs}
     # the seen sets are actually filled
     adds = [n for n in g.calls() if isinstance(n.ast, ast.Call) and isinstance(n.ast.func, ast.Attribute) and n.ast.func.attr == "add"]
-    ctx.ob("C11.R4", f, "seen_ids / seen_names are populated", adds[0] if adds else None,
-           {"seen_ids", "seen_names"} <= {norm_text(a.ast.func.value) for a in adds}, "", nontrivial=False)  # type: ignore[union-attr]
+    ctx.ob("C11.R4", f, "the duplicate-detection sets are populated", adds[0] if adds else None,
+           bool(dup_sets) and dup_sets <= {norm_text(a.ast.func.value) for a in adds}, f"sets {sorted(dup_sets)}", nontrivial=False)  # type: ignore[union-attr]
